@@ -3,13 +3,25 @@
 
   Parametrised by the list of known tags, the junk-recovery threshold
   (`none` = disabled, the client's BLOB connection) and the parser
-  `tryParse : Str → Option M` ("`ET.fromstring` succeeds and
-  `IndiMessage.from_string` succeeds").  For running, `tryParse` is the XML +
-  message model; for the C11/C02 theorems it is arbitrary.
+  `parse : Str → ParseRes M`: `notXml` (`ET.fromstring` raises `ParseError`),
+  `invalid` (well-formed XML, but `IndiMessage.from_string` raises) or
+  `msg m`.  For running, `parse` is a table of what the real parser answers;
+  for the C11/C02 theorems it is arbitrary.
 -/
 import Indi.Model.Basic
 
 namespace Indi.Buf
+
+inductive ParseRes (M : Type) where
+  | notXml
+  | invalid
+  | msg (m : M)
+
+/-- what one scan of the buffer finds -/
+inductive FindRes (M : Type) where
+  | found (m : M) (rest : Str)     -- a message and the data after it
+  | skip (rest : Str)              -- a complete element that is not a valid message: dropped
+  | nothing
 
 variable {M : Type}
 
@@ -42,20 +54,21 @@ def cleanup (tags : List Str) (d : Str) : Str :=
 
 /-- the `while` loop of `_find_message_in_buffer`, after its guard has been
 passed: `preRev` is the already scanned part (reversed), `rest` the part still
-to scan.  Every prefix ending at a `'>'` is a candidate; after a failed
-candidate the loop guard `end < len(data) - 1` is evaluated again. -/
-def scan (tryParse : Str → Option M) : Str → Str → Option (M × Str)
-  | _, [] => none
+to scan.  Every prefix ending at a `'>'` is a candidate; after a candidate that
+is not XML the loop guard `end < len(data) - 1` is evaluated again. -/
+def scan (parse : Str → ParseRes M) : Str → Str → FindRes M
+  | _, [] => .nothing
   | preRev, c :: cs =>
     if c = '>' then
-      match tryParse (c :: preRev).reverse with
-      | some m => some (m, cs)
-      | none => if cs.length < 2 then none else scan tryParse (c :: preRev) cs
-    else scan tryParse (c :: preRev) cs
+      match parse (c :: preRev).reverse with
+      | .msg m => .found m cs
+      | .invalid => .skip cs
+      | .notXml => if cs.length < 2 then .nothing else scan parse (c :: preRev) cs
+    else scan parse (c :: preRev) cs
 
-/-- `_find_message_in_buffer`: the message and the data after it -/
-def findMessage (tryParse : Str → Option M) (data : Str) : Option (M × Str) :=
-  if data.length < 2 then none else scan tryParse [] data
+/-- `_find_message_in_buffer` -/
+def findMessage (parse : Str → ParseRes M) (data : Str) : FindRes M :=
+  if data.length < 2 then .nothing else scan parse [] data
 
 theorem dropToKnown_length_le (tags : List Str) (d : Str) :
     ∀ r, dropToKnown tags d = some r → r.length ≤ d.length := by
@@ -90,48 +103,72 @@ theorem cleanup_length_le (tags : List Str) (d : Str) : (cleanup tags d).length 
     · rename_i r h; exact dropToLastLt_length_le d r h
     · simp
 
-theorem scan_rest_length (tryParse : Str → Option M) :
-    ∀ (rest preRev : Str) (m : M) (r : Str), scan tryParse preRev rest = some (m, r) → r.length < rest.length := by
+theorem scan_rest_length (parse : Str → ParseRes M) :
+    ∀ (rest preRev : Str),
+      (∀ m r, scan parse preRev rest = .found m r → r.length < rest.length) ∧
+      (∀ r, scan parse preRev rest = .skip r → r.length < rest.length) := by
   intro rest
   induction rest with
-  | nil => intro preRev m r h; simp [scan] at h
+  | nil => intro preRev; constructor <;> intros <;> simp [scan] at *
   | cons c cs ih =>
-    intro preRev m r h
-    simp only [scan] at h
-    split at h
-    · split at h
-      · cases h; simp
-      · split at h
-        · cases h
-        · have := ih _ _ _ h; simp only [List.length_cons]; omega
-    · have := ih _ _ _ h; simp only [List.length_cons]; omega
+    intro preRev
+    simp only [scan]
+    split
+    · split
+      · constructor
+        · intro m r h; cases h; simp
+        · intro r h; cases h
+      · constructor
+        · intro m r h; cases h
+        · intro r h; cases h; simp
+      · split
+        · constructor <;> intros <;> simp at *
+        · have := ih (c :: preRev)
+          constructor
+          · intro m r h; have := this.1 m r h; simp only [List.length_cons]; omega
+          · intro r h; have := this.2 r h; simp only [List.length_cons]; omega
+    · have := ih (c :: preRev)
+      constructor
+      · intro m r h; have := this.1 m r h; simp only [List.length_cons]; omega
+      · intro r h; have := this.2 r h; simp only [List.length_cons]; omega
 
-theorem findMessage_rest_length (tryParse : Str → Option M) (data : Str) (m : M) (r : Str)
-    (h : findMessage tryParse data = some (m, r)) : r.length < data.length := by
+theorem findMessage_found_length (parse : Str → ParseRes M) (data : Str) (m : M) (r : Str)
+    (h : findMessage parse data = .found m r) : r.length < data.length := by
   unfold findMessage at h
   split at h
   · cases h
-  · exact scan_rest_length tryParse data [] m r h
+  · exact (scan_rest_length parse data []).1 m r h
+
+theorem findMessage_skip_length (parse : Str → ParseRes M) (data : Str) (r : Str)
+    (h : findMessage parse data = .skip r) : r.length < data.length := by
+  unfold findMessage at h
+  split at h
+  · cases h
+  · exact (scan_rest_length parse data []).2 r h
 
 /-- the loop of `Buffer.process` on already cleaned-up data: delivered
 messages in order, and the retained data -/
-def processLoop (tryParse : Str → Option M) (tags : List Str) (threshold : Option Nat) (data : Str) :
+def processLoop (parse : Str → ParseRes M) (tags : List Str) (threshold : Option Nat) (data : Str) :
     List M × Str :=
   if hd : data = [] then ([], [])
   else
-    match hf : findMessage tryParse data with
-    | some (m, rest) =>
-      let r := processLoop tryParse tags threshold (cleanup tags rest)
+    match hf : findMessage parse data with
+    | .found m rest =>
+      let r := processLoop parse tags threshold (cleanup tags rest)
       (m :: r.1, r.2)
-    | none =>
+    | .skip rest => processLoop parse tags threshold (cleanup tags rest)
+    | .nothing =>
       match threshold with
       | some t =>
-        if data.length > t then processLoop tryParse tags threshold (cleanup tags data.tail)
+        if data.length > t then processLoop parse tags threshold (cleanup tags data.tail)
         else ([], data)
       | none => ([], data)
 termination_by data.length
 decreasing_by
-  · have h1 := findMessage_rest_length tryParse data m rest hf
+  · have h1 := findMessage_found_length parse data m rest hf
+    have h2 := cleanup_length_le tags rest
+    omega
+  · have h1 := findMessage_skip_length parse data rest hf
     have h2 := cleanup_length_le tags rest
     omega
   · have h2 := cleanup_length_le tags data.tail
@@ -142,22 +179,22 @@ decreasing_by
     omega
 
 /-- `Buffer.process` -/
-def process (tryParse : Str → Option M) (tags : List Str) (threshold : Option Nat) (data : Str) :
+def process (parse : Str → ParseRes M) (tags : List Str) (threshold : Option Nat) (data : Str) :
     List M × Str :=
-  processLoop tryParse tags threshold (cleanup tags data)
+  processLoop parse tags threshold (cleanup tags data)
 
 /-- `buffer.append(piece); buffer.process(callback)` -/
-def feed (tryParse : Str → Option M) (tags : List Str) (threshold : Option Nat) (data piece : Str) :
+def feed (parse : Str → ParseRes M) (tags : List Str) (threshold : Option Nat) (data piece : Str) :
     List M × Str :=
-  process tryParse tags threshold (data ++ piece)
+  process parse tags threshold (data ++ piece)
 
 /-- a whole session: pieces fed one after the other; the deliveries of every call, and the final buffer -/
-def session (tryParse : Str → Option M) (tags : List Str) (threshold : Option Nat) :
+def session (parse : Str → ParseRes M) (tags : List Str) (threshold : Option Nat) :
     Str → List Str → List (List M) × Str
   | data, [] => ([], data)
   | data, p :: ps =>
-    let r := feed tryParse tags threshold data p
-    let rs := session tryParse tags threshold r.2 ps
+    let r := feed parse tags threshold data p
+    let rs := session parse tags threshold r.2 ps
     (r.1 :: rs.1, rs.2)
 
 end Indi.Buf
